@@ -15,9 +15,9 @@ CLAIMS["C13"] = (
     "3/C13")
 
 CLAIMS["C15"] = (
-    "Structural rules for the close/deadline machinery: stored deadlines are written only by the deadline setters; every close() of a lifecycle channel is once-only (winning CAS, sync.Once, done-poll under mutex, admission gate, single constructor goroutine); every blocking channel operation has a shutdown alternative; underlay Close pokes blocked network I/O before waiting for sessions.",
-    "Decides rules R15.1-R15.4. Not decided: promptness in seconds, goroutine counts at run time, data-race freedom in general, all interleavings." + COMMON_NOTE,
-    "field-store inventory, enumerated close-once idioms checked by dominance/control dependence, select/send/receive inventory on go/ssa",
+    "Structural rules for the close/deadline machinery: stored deadlines are written only by the deadline setters; every close() of a lifecycle channel is once-only (winning CAS, sync.Once, done-poll under mutex, admission gate, single constructor goroutine); every blocking channel operation has a shutdown alternative (for Session methods: the session's own closedChan, which is what Close fires); underlay Close pokes blocked network I/O - reads, and on a stream connection writes too - before waiting for sessions; the goroutine that runs an underlay event loop closes the underlay on every path after the loop returns.",
+    "Decides rules R15.1-R15.5. Not decided: promptness in seconds, goroutine counts at run time, data-race freedom in general, all interleavings." + COMMON_NOTE,
+    "field-store inventory, enumerated close-once idioms checked by dominance/control dependence, select/send/receive inventory, must-pass-through after RunEventLoop on go/ssa",
     "3/C15")
 
 CLAIMS["C07"] = (
